@@ -402,6 +402,8 @@ pub async fn convergence_scenario(seed: u64, scen: u64, cfg: &ScenarioCfg, tag: 
     let levels = [Consistency::None, Consistency::None, Consistency::One, Consistency::Two, Consistency::Quorum, Consistency::LocalQuorum, Consistency::All, Consistency::EachQuorum];
     let mut tasks = Vec::new();
     let join_at = rng.gen_range(1..cfg.n_ops.max(2));
+    // operations the clients issued, per (issuing node, keyspace, id, kind): each gets exactly one stamp
+    let mut issued: BTreeMap<(u8, String, Key, bool), u64> = BTreeMap::new();
     let restart_at = if cfg.restart { Some(rng.gen_range(1..cfg.n_ops.max(2))) } else { None };
     let mut purged_ids: BTreeSet<(usize, Key)> = BTreeSet::new();
     for k in 0..cfg.n_ops {
@@ -463,6 +465,16 @@ pub async fn convergence_scenario(seed: u64, scen: u64, cfg: &ScenarioCfg, tag: 
         }
         res.ops_json.push(op_json(&op));
         res.ops += 1;
+        {
+            let nid = cluster.nodes[node].id;
+            let mut note = |ks: usize, id: Key, del: bool| *issued.entry((nid, KEYSPACES[ks].to_string(), id, del)).or_insert(0u64) += 1;
+            match &op {
+                ClientOp::Put { ks, id, .. } => note(*ks, *id, false),
+                ClientOp::Del { ks, id, .. } => note(*ks, *id, true),
+                ClientOp::PutMany { ks, docs, .. } => docs.iter().for_each(|d| note(*ks, d.0, false)),
+                ClientOp::DelMany { ks, ids, .. } => ids.iter().for_each(|i| note(*ks, *i, true)),
+            }
+        }
         let h = cluster.nodes[node].handle();
         tasks.push(tokio::spawn(run_op(h, op)));
         tokio::time::sleep(Duration::from_millis(rng.gen_range(0..=cfg.max_gap_ms))).await;
@@ -563,6 +575,31 @@ pub async fn convergence_scenario(seed: u64, scen: u64, cfg: &ScenarioCfg, tag: 
             let kinds: BTreeSet<bool> = what.iter().map(|x| x.2).collect();
             if kinds.len() > 1 {
                 res.inconclusive = Some(format!("node {issuer} issued stamp {t} for a put and a delete (clock artefact)"));
+            }
+        }
+    }
+    // conservation of operations: an operation carries ONE stamp wherever it travels, so the number of
+    // distinct stamps of origin N seen anywhere for (keyspace, id, put-or-delete) cannot exceed the number
+    // of such operations the clients issued at N - a re-stamped or fabricated operation shows as one too
+    // many, whatever the final state is
+    {
+        let mut stamps: BTreeMap<(u8, String, Key, bool), BTreeSet<HLCTimestamp>> = BTreeMap::new();
+        for w in &writes {
+            stamps.entry((w.ts.node(), w.keyspace.clone(), w.id, w.data.is_none())).or_default().insert(w.ts);
+        }
+        for (k, set) in &stamps {
+            let n_issued = issued.get(k).copied().unwrap_or(0);
+            if set.len() as u64 > n_issued && res.read_divergence.is_none() {
+                let where_: Vec<Value> = writes
+                    .iter()
+                    .filter(|w| w.ts.node() == k.0 && w.keyspace == k.1 && w.id == k.2 && w.data.is_none() == k.3)
+                    .map(|w| json!({"written_at_node": w.node, "stamp": ts_json(w.ts)}))
+                    .collect();
+                res.read_divergence = Some((
+                    format!("more-versions-of-an-origin-in-circulation-than-operations-issued:{}", if k.3 { "delete" } else { "put" }),
+                    json!({"origin_node": k.0, "keyspace": k.1, "id": k.2, "kind": if k.3 { "delete" } else { "put" }, "operations_issued_there": n_issued,
+                        "distinct_stamps_written_anywhere": set.iter().map(|t| ts_json(*t)).collect::<Vec<_>>(), "writes": where_}),
+                ));
             }
         }
     }
@@ -747,7 +784,7 @@ fn c01_case(seed: u64, scen: u64, thorough: bool, prop: &str, want_reads: bool, 
     out
 }
 
-const C01_RULE: &str = "one scenario = a real cluster of 2..5 nodes (1-2 DCs, MemStore behind a recording wrapper) on a virtual-time runtime: 5..40 put/del/put_many/del_many through the public handle at random nodes and consistency levels, 1-2 keyspaces, 3-6 ids, clocks skewed up to +-10 min; every ConsistencyService message (direct and batch) gets an independent verdict from a seeded policy - deliver / drop / duplicate / drop the reply / hold for up to 2.5 s (= reorder); real distributor (1 s batches), in half of the scenarios the real poller; optionally a node that joins late (after deletes) and a node stopped and restarted on its storage; 35 % of the scenarios are 'sparse knowledge' ones (2-6 operations on 1-2 ids, 90 % of the messages lost, no background repair, mostly Consistency::None) in which every operation is known to its issuer only and the result rests on the order of the final exchanges. Then faults stop, held messages drain, and node i pulls from node j (repair_from = real repair_members with a fresh tracker) for EVERY ordered pair in random order, failpoints choosing which half of each exchange is applied first; an exchange that did not complete is retried, else the scenario is inconclusive. Oracle: LWW over all storage writes recorded anywhere (the operations that took effect); every node's get / get_many / iter_metadata must equal it (ids, bytes, stamps). Preconditions re-checked: stamps within 3600 s, one stamp never names a put and a delete. Second kind of scenario (40 000 quick): operations RACING a repair exchange - direct replication to the polling node lost, the polled node's storage slow (each write takes 0/2/5/20 virtual ms); when the state request is about to be delivered the monitor wakes a client and holds the request up to that long; the client issues one operation at once (the actor is busy, the state request queues behind it) and the scenario's last operation (put new id / overwrite / delete) a little later (queues behind the state request); after 4 repair intervals the poller's own cycles must have converged every node to the LWW documents. Non-trivial = at least one message verdict was not 'deliver'; distinct = distinct hash of (operations, per-message verdict trace).";
+const C01_RULE: &str = "one scenario = a real cluster of 2..5 nodes (1-2 DCs, MemStore behind a recording wrapper) on a virtual-time runtime: 5..40 put/del/put_many/del_many through the public handle at random nodes and consistency levels, 1-2 keyspaces, 3-6 ids, clocks skewed up to +-10 min; every ConsistencyService message (direct and batch) gets an independent verdict from a seeded policy - deliver / drop / duplicate / drop the reply / hold for up to 2.5 s (= reorder); real distributor (1 s batches), in half of the scenarios the real poller; optionally a node that joins late (after deletes) and a node stopped and restarted on its storage; 35 % of the scenarios are 'sparse knowledge' ones (2-6 operations on 1-2 ids, 90 % of the messages lost, no background repair, mostly Consistency::None) in which every operation is known to its issuer only and the result rests on the order of the final exchanges. Then faults stop, held messages drain, and node i pulls from node j (repair_from = real repair_members with a fresh tracker) for EVERY ordered pair in random order, failpoints choosing which half of each exchange is applied first; an exchange that did not complete is retried, else the scenario is inconclusive. Oracle: LWW over all storage writes recorded anywhere (the operations that took effect); every node's get / get_many / iter_metadata must equal it (ids, bytes, stamps). Conservation of operations: for every (origin node, keyspace, id, put-or-delete) the number of distinct stamps written anywhere must not exceed the number of such operations the clients issued at that node (an operation carries one stamp wherever it travels), so a re-stamped or fabricated operation is reported even when the cluster converges on it. Preconditions re-checked: stamps within 3600 s, one stamp never names a put and a delete. Second kind of scenario (40 000 quick): operations RACING a repair exchange - direct replication to the polling node lost, the polled node's storage slow (each write takes 0/2/5/20 virtual ms); when the state request is about to be delivered the monitor wakes a client and holds the request up to that long; the client issues one operation at once (the actor is busy, the state request queues behind it) and the scenario's last operation (put new id / overwrite / delete) a little later (queues behind the state request); after 4 repair intervals the poller's own cycles must have converged every node to the LWW documents. Non-trivial = at least one message verdict was not 'deliver'; distinct = distinct hash of (operations, per-message verdict trace).";
 
 /// Operations racing a repair exchange. Two or three nodes with the real poller; direct replication
 /// to the polling node B is lost; the polled node A has SLOW storage (every write takes d virtual ms,
